@@ -1,9 +1,9 @@
 -------------------------- MODULE Trace_ArgsPolicy --------------------------
-EXTENDS ArgsPolicy, Json, IOUtils
+EXTENDS ArgsLoops, Json, IOUtils
 Tr == ndJsonDeserialize(IOEnv.TRACE_FILE)
 VARIABLE tid
-TInit == tid \in 1..Len(Tr)
-TSpec == TInit /\ [][UNCHANGED tid]_tid
+TInit == tid \in 1..Len(Tr) /\ ac = 0 /\ lp = 0
+TSpec == TInit /\ [][UNCHANGED <<tid, ac, lp>>]_<<tid, ac, lp>>
 R == Tr[tid]
 Clause == IF ~P_Elementwise(R.c, R.r) THEN (IF R.r.ok # ExpOk(R.c) THEN (IF R.r.ok THEN "accepts" ELSE "rejects") ELSE "elements")
           ELSE IF ~P_Filtered(R.c, R.r) THEN "filtered" ELSE "none"
@@ -11,4 +11,9 @@ JudgeP == Clause = "none" \/ PrintT(<<"VIOL", R.id, Clause>>)
 ClauseF == IF P_Fields(R.c, R.r) THEN "none" ELSE IF R.r.ok # ExpOk(R.c) THEN (IF R.r.ok THEN "accepts" ELSE "rejects") ELSE "fields"
 JudgeF == ClauseF = "none" \/ PrintT(<<"VIOL", R.id, ClauseF>>)
 JudgeM == MOk(R.c) = R.r.ok \/ PrintT(<<"DIV", R.id>>)
+\* the element loops as transcribed (ArgsLoops!LRun) against what the real container type returned
+JudgeL == LET m == LRun(R.c) IN
+          (m.ok = R.r.ok /\ (m.ok => CASE R.c.shape = "seq" -> SameSeq(m.vals, R.r.vals) [] R.c.shape = "set" -> SameBag(m.vals, R.r.vals)
+                                        [] OTHER -> SameMap(m.keys, m.vals, R.r.keys, R.r.vals)))
+          \/ PrintT(<<"DIV", R.id, "loops">>)
 =============================================================================
